@@ -14,10 +14,15 @@ def is_sym(x):
 class F:
     """an f64 value in real mode.  v: Fraction | z3 Real (the value, or the NUMERATOR when d is set);
     d: None | z3 Real denominator (fraction mode: value = v/d, d assumed non-zero where it matters)"""
-    __slots__ = ("v", "d")
+    __slots__ = ("v", "d", "ar")
 
     def __init__(self, v, d=None):
+        # ar: "arithmetic applied" taint - False for inputs/literals and values that merely flowed (moves, clones, selections),
+        # True for the result of any floating-point operation that is not exactly neutral.  Real arithmetic cannot see
+        # rounding; the taint lets a clause demand 'returned exactly, with no operation on the way'.
+        self.ar = False
         if isinstance(v, F):
+            self.ar = v.ar
             v, d = v.v, v.d
         elif isinstance(v, (int,)) and not isinstance(v, bool):
             v = Fraction(v)
@@ -44,7 +49,7 @@ class F:
         return self.num(), (self.d if self.d is not None else z3.RealVal(1))
 
 
-def fr_bin(op, a, b):
+def _fr_bin(op, a, b):
     """exact fraction arithmetic on F values (no fresh variables): the result carries an explicit denominator"""
     if a.d is None and b.d is None and not is_sym(a.v) and not is_sym(b.v):
         if op == "add": return F(a.v + b.v)
@@ -98,8 +103,26 @@ def fr_ite(c, a, b):
     if c is False: return b
     (n1, d1), (n2, d2) = a.pair(), b.pair()
     if a.d is None and b.d is None:
-        return F(z3.If(c, n1, n2))
-    return F(z3.If(c, n1, n2), z3.If(c, d1, d2))
+        r = F(z3.If(c, n1, n2))
+    else:
+        r = F(z3.If(c, n1, n2), z3.If(c, d1, d2))
+    r.ar = a.ar or b.ar
+    return r
+
+
+def _tainted(r, a, b):
+    if r is a or r is b:          # exactly neutral operation (x*1, x+0): the operand itself flows on
+        return r
+    r.ar = True
+    return r
+
+
+def fr_bin(op, a, b):
+    return _tainted(_fr_bin(op, a, b), a, b)
+
+
+def f_bin(m, op, a, b):
+    return _tainted(_f_bin(m, op, a, b), a, b)
 
 
 def rv(fr):
@@ -196,7 +219,7 @@ def wrap_int(v, lo, hi):
 
 
 # ---------------------------------------------------------------- floats (real mode)
-def f_bin(m, op, a, b):
+def _f_bin(m, op, a, b):
     """a, b: F.  m: machine (for fresh quotient variables)"""
     if a.d is not None or b.d is not None or (op == "div" and getattr(m, "div_mode", "quot") == "frac" and (is_sym(b.v))):
         if op == "rem":
@@ -245,10 +268,17 @@ def f_bin(m, op, a, b):
 
 
 def f_neg(a):
-    return F(-a.v, a.d)
+    r = F(-a.v, a.d)
+    r.ar = a.ar           # a sign flip is exact
+    return r
+
+
+TAINTED_EQ = []      # (==, !=) comparisons whose operands are results of floating-point arithmetic (reset by the caller)
 
 
 def f_cmp(op, a, b):
+    if op in ("eq", "ne") and (getattr(a, "ar", False) or getattr(b, "ar", False)):
+        TAINTED_EQ.append(op)
     if a.d is not None or b.d is not None:
         (n1, d1), (n2, d2) = a.pair(), b.pair()
         if op == "eq": return fr_eq(a, b)
